@@ -1,5 +1,7 @@
 #!/bin/sh
 # check.sh <property> <tier>: the registered entry point of every check.
-cd /verif
+here=$(cd "$(dirname "$0")" && pwd)
+cd "$here"
+[ "$here" != /verif ] && export VERIF_DIR="$here"
 [ -x bin/simcheck ] || ./setup.sh >/dev/null 2>&1 || { echo "setup failed"; exit 2; }
 exec ./bin/simcheck run --property "$1" --tier "${2:-${VERIF_TIER:-quick}}"
